@@ -123,6 +123,131 @@ theorem duplicate_decl_reported (d1 d2 : Decl) (id : String) (e : Endian)
   refine ⟨mkD 1 [d2.loc, d1.loc], ?_, rfl⟩
   simp [scopeDiags, scopeDiags.go, h1, h2, List.lookup]
 
+
+/-! ### accepted ⇒ the rule holds: one declarative statement per pass (the contrapositive of "rejected with the rule's code") -/
+
+theorem flatMap_nil_iff {α β : Type} (l : List α) (g : α → List β) : l.flatMap g = [] ↔ ∀ a ∈ l, g a = [] := by
+  induction l with
+  | nil => simp
+  | cons a l ih => simp [List.flatMap_cons, ih]
+
+/-- **E32 – E35.**  If the fixed-field pass reports nothing, every `_fixed_ = v : w` has `v < 2^w`, and every
+    `_fixed_ = TAG : Enum` names a declared enum that has that tag -/
+theorem fixed_fields_ok (f : File) (h : checkFixedFields f = []) (d : Decl) (hd : d ∈ f.decls) (fl : Field)
+    (hfl : fl ∈ d.fields) :
+    (∀ w v, fl.desc = .fixedScalar w v → v < 2 ^ w) ∧
+    (∀ en tag, fl.desc = .fixedEnum en tag → ∃ e id tags w, lookupDecl f en = some e ∧ e.desc = .enum id tags w ∧
+      tags.any (·.id == tag) = true) := by
+  simp only [checkFixedFields, perDecl] at h
+  have h1 := (flatMap_nil_iff _ _).mp h d hd
+  have h2 := (flatMap_nil_iff _ _).mp h1 fl hfl
+  constructor
+  · intro w v hdesc
+    simp only [hdesc] at h2
+    by_cases hb : bitWidth v > w
+    · simp [hb] at h2
+    · have : ¬ v ≥ 2 ^ w := fun hv => hb ((bitWidth_gt_iff v w).mpr hv)
+      omega
+  · intro en tag hdesc
+    simp only [hdesc] at h2
+    cases hl : lookupDecl f en with
+    | none => simp [hl] at h2
+    | some e =>
+      simp only [hl] at h2
+      cases he : e.desc with
+      | enum id tags w =>
+        simp only [he] at h2
+        by_cases ht : tags.any (·.id == tag) = true
+        · exact ⟨e, id, tags, w, rfl, he, ht⟩
+        · simp [ht] at h2
+      | _ => simp [he] at h2
+
+/-- the fields of a declaration in which every `_padding_` directly follows an array field -/
+def paddingOk : Bool → List Field → Bool
+  | _, [] => true
+  | prevArr, fl :: fs =>
+    match fl.desc with
+    | .padding _ => prevArr && paddingOk false fs
+    | .array .. => paddingOk true fs
+    | _ => paddingOk false fs
+
+theorem padding_go_ok : ∀ (fs : List Field) (prevArr : Bool), checkPaddingFields.go prevArr fs = [] →
+    paddingOk prevArr fs = true
+  | [], _, _ => rfl
+  | fl :: fs, prevArr, h => by
+    simp only [checkPaddingFields.go] at h
+    simp only [paddingOk]
+    cases hdesc : fl.desc with
+    | padding n =>
+      simp only [hdesc, List.append_eq_nil_iff] at h
+      cases prevArr with
+      | false => simp at h
+      | true => simpa using padding_go_ok fs false h.2
+    | array a b c d e =>
+      simp only [hdesc] at h
+      exact padding_go_ok fs true h
+    | _ =>
+      simp only [hdesc] at h
+      exact padding_go_ok fs false h
+
+/-- **E39.**  If the padding pass reports nothing, in every declaration every `_padding_` field directly
+    follows an array field (so never another `_padding_`, never the first field) -/
+theorem padding_fields_ok (f : File) (h : checkPaddingFields f = []) (d : Decl) (hd : d ∈ f.decls) :
+    paddingOk false d.fields = true := by
+  simp only [checkPaddingFields, perDecl] at h
+  exact padding_go_ok d.fields false ((flatMap_nil_iff _ _).mp h d hd)
+
+/-- the number of `_payload_` / `_body_` fields of a field list -/
+def payloadCount (fs : List Field) : Nat := (fs.filter isPayloadField).length
+
+theorem payload_go_ok : ∀ (fs : List Field) (prev : Option Field), (checkPayloadFields.go prev fs).1 = [] →
+    payloadCount fs + (if prev.isSome then 1 else 0) ≤ 1
+  | [], prev, _ => by cases prev <;> simp [payloadCount]
+  | fl :: fs, prev, h => by
+    simp only [checkPayloadFields.go] at h
+    by_cases hp : isPayloadField fl = true
+    · simp only [hp, ↓reduceIte] at h
+      cases prev with
+      | some p => simp at h
+      | none =>
+        have := payload_go_ok fs (some fl) h
+        simp only [payloadCount, List.filter, hp, List.length_cons] at this ⊢
+        simp only [Option.isSome_some, ↓reduceIte] at this
+        simp only [Option.isSome_none, Bool.false_eq_true, ↓reduceIte]
+        exact this
+    · have hp' : isPayloadField fl = false := by simpa using hp
+      simp only [hp', Bool.false_eq_true, ↓reduceIte] at h
+      have := payload_go_ok fs prev h
+      simpa [payloadCount, List.filter, hp'] using this
+
+/-- **E36.**  If the payload pass reports nothing, no declaration has two `_payload_` / `_body_` fields -/
+theorem payload_fields_ok (f : File) (h : checkPayloadFields f = []) (d : Decl) (hd : d ∈ f.decls) :
+    payloadCount d.fields ≤ 1 := by
+  simp only [checkPayloadFields, perDecl] at h
+  have h1 := (flatMap_nil_iff _ _).mp h d hd
+  simp only [List.append_eq_nil_iff] at h1
+  have := payload_go_ok d.fields none h1.1
+  simpa using this
+
+/-- **No description violating E32–E36 or E39 reaches a back end**: whenever `analyze` returns a file, the
+    declarations it analyzed (`g`: the source declarations in dependency order) satisfy those rules as stated
+    declaratively above — for every declaration and every field, at every position -/
+theorem analyze_ok_rules (f f' : File) (h : analyze f = .ok f') :
+    ∃ g, checkDeclIdentifiers f = .ok g ∧ ∀ d ∈ g.decls,
+      paddingOk false d.fields = true ∧ payloadCount d.fields ≤ 1 ∧
+      ∀ fl ∈ d.fields, (∀ w v, fl.desc = .fixedScalar w v → v < 2 ^ w) ∧
+        (∀ en tag, fl.desc = .fixedEnum en tag → ∃ e id tags w, lookupDecl g en = some e ∧ e.desc = .enum id tags w ∧
+          tags.any (·.id == tag) = true) := by
+  obtain ⟨_, g, hg, _, _, _, hfix, hpay, _, hpad⟩ := analyze_ok_first_passes f f' h
+  exact ⟨g, hg, fun d hd => ⟨padding_fields_ok g hpad d hd, payload_fields_ok g hpay d hd,
+    fun fl hfl => fixed_fields_ok g hfix d hd fl hfl⟩⟩
+
+/-! non-vacuity: two consecutive `_padding_` fields after an array are not `paddingOk`, one is -/
+example : paddingOk false [{ desc := .array "x" (some 8) none none none, loc := default },
+    { desc := .padding 4, loc := default }, { desc := .padding 4, loc := default }] = false := by rfl
+example : paddingOk false [{ desc := .array "x" (some 8) none none none, loc := default },
+    { desc := .padding 4, loc := default }] = true := by rfl
+
 /-! ### non-vacuity: the boundary cases evaluate as stated -/
 example : bitWidth 256 > 8 ∧ ¬ bitWidth 255 > 8 := by decide
 example : bitWidth (2 ^ 63) > 63 ∧ ¬ bitWidth (2 ^ 63 - 1) > 63 := by
